@@ -52,7 +52,10 @@ def vclass0(hist, layout, late):
         for a in hist[:i]:
             cached = True if a in EVALS else (False if a == "Restart" else cached)
         nxt = next((a for a in hist[i + 1:] if a in EVALS or a == "Restart"), "Add")
-        return "fork-switch-after-evaluation" if cached and nxt != "Restart" else "fork-switch"
+        if cached and nxt != "Restart":
+            return "fork-switch-after-evaluation"
+        # the process is replaced after the switch: what the reset handler PERSISTED (not only what it kept in memory) decides
+        return "fork-switch-then-restart" if "Restart" in hist[i + 1:] else "fork-switch"
     if "Restart" in hist:
         return "restart-after-" + SLOTS[hist[:hist.index("Restart")].count("Add") - 1]
     evs = [a for a in hist if a in EVALS]
@@ -70,7 +73,7 @@ def vclass0(hist, layout, late):
 
 
 REQUIRED_CLASSES = ["plain", "block-layout", "late-sync", "cached-reevaluation", "other-proposal-first", "own-proposal-first",
-                    "fork-switch", "fork-switch-after-evaluation", "epoch-block-rolled-back"] + ["restart-after-" + s for s in SLOTS[:-1]]
+                    "fork-switch", "fork-switch-then-restart", "fork-switch-after-evaluation", "epoch-block-rolled-back"] + ["restart-after-" + s for s in SLOTS[:-1]]
 
 
 def sample(behaviours, rnd, per_class, per_stale):
